@@ -21,7 +21,7 @@ ASSUME \A i \in 1..Len(Logs) : TLCSet(i, <<0, "ok">>)
 Rec == Logs[tid][l]
 
 InOf(r) == [start |-> r.start, write |-> r.write, reg |-> r.reg, single |-> r.single, ahi |-> r.ahi, alo |-> r.alo,
-            final |-> r.final, wdata |-> r.wdata, rwds |-> r.rwds]
+            final |-> r.final, wdata |-> r.wdata, rwds |-> r.rwds, rst |-> r.rst]
 OutOf(r) == [cs |-> r.cs, clk_en |-> r.clk_en, dq_e |-> r.dq_e, dq_o |-> r.dq_o, rwds_e |-> r.rwds_e,
              rwds_o |-> r.rwds_o, idle |-> r.idle, write_ready |-> r.write_ready, read_ready |-> r.read_ready]
 
